@@ -311,3 +311,17 @@ func (eng *Engine) sourceLine(pos token.Pos) string {
 	}
 	return ""
 }
+
+// funcSource returns the source text of fn's declaration.
+func (eng *Engine) funcSource(fn *ssa.Function) string {
+	syn := fn.Syntax()
+	if syn == nil {
+		return ""
+	}
+	p0, p1 := eng.fset.Position(syn.Pos()), eng.fset.Position(syn.End())
+	data, err := os.ReadFile(p0.Filename)
+	if err != nil || p1.Offset > len(data) {
+		return ""
+	}
+	return string(data[p0.Offset:p1.Offset])
+}
